@@ -46,6 +46,20 @@ theorem idnaDecode_errs [Sub VO Q] (o : Oracles) (h : Str) : Errs Q (idnaDecode 
 macro_rules | `(tactic| errs_leaf) => `(tactic| with_reducible exact idnaEncode_errs _ _)
 macro_rules | `(tactic| errs_leaf) => `(tactic| with_reducible exact idnaDecode_errs _ _)
 
+/-- the re-entry on the ASCII text an IDNA mapping produced (fix 3fbf5b4): same error kinds -/
+theorem encodeHostA_errs [Sub VO Q] (o : Oracles) (h : Str) (v : Bool) : Errs Q (encodeHostA o h v) := by
+  unfold encodeHostA; errs
+  rename_i heq
+  split at heq
+  · split at heq
+    · split at heq
+      · cases heq; exact Errs.error vo_value
+      · split at heq <;> (cases heq; exact Errs.pure _)
+    · cases heq
+  · cases heq
+
+macro_rules | `(tactic| errs_leaf) => `(tactic| with_reducible exact encodeHostA_errs _ _ _)
+
 theorem encodeHost_errs [Sub VO Q] (o : Oracles) (h : Str) (v : Bool) : Errs Q (encodeHost o h v) := by
   unfold encodeHost; errs
   -- the IP branch now returns an `R Str` (the zone id is validated): it is `pure _` or a ValueError
